@@ -58,9 +58,7 @@ class Replayer:
         for a in ("mu", "sigma", "beta", "kappa", "tau"):
             kw[a] = float(rec[a])
         kw["limit_sigma"] = rec["limit"] == "T"
-        mh = self.sess.model(rec["kind"], gamma=rec["gamma"], **kw)
-        mh.id = mid
-        mh.constructed = dict(mh.constructed, id=mid)
+        mh = self.sess.model(rec["kind"], gamma=rec["gamma"], _mid=mid, **kw)
         self.models[mid] = mh
         return mh
 
@@ -146,6 +144,16 @@ class Replayer:
         if op == "assign":
             o = self.decode(ev["a"])
             return s.assign(o, mu=pnum(ev["a_after"]["mu"]), sigma=pnum(ev["a_after"]["sigma"]))
+        if op == "new_model":
+            a, kw = ev["args"], {}
+            for k in ("mu", "sigma", "beta", "kappa", "tau"):
+                if a[k]["t"] != "none":
+                    kw[k] = self.decode(a[k])
+            if a["limit"]["t"] != "none":
+                kw["limit_sigma"] = self.decode(a["limit"])
+            mh = s.model(ev["kind"], gamma=a["gamma"]["v"] if a["gamma"]["t"] != "none" else "default", _mid=ev["model"]["id"], **kw)
+            self.models[mh.id] = mh
+            return mh
         if op == "setattr":
             mh = self.model_for(ev["model"])
             attr, v = ev["attr"], ev["value"]
